@@ -689,3 +689,81 @@ def run(report, prog, tier):
     report.trusted += ['struct.calcsize / struct.pack semantics of the checker interpreter',
                        'induction: len(x.encode()) == len(x) for aggregated sub-PDUs (each class is itself an R1 obligation)']
     report.assumptions += ['field domains: RW 0..15, MIU 128..2175, SAP 0..63, N(S)/N(R) 0..15']
+
+
+MUTANTS = [
+    # R1 __len__ vs encode
+    ('dm-len-constant', PDU, """    def __len__(self):
+        return 3
+
+    def __str__(self):
+        return super(DisconnectedMode, self).__str__() + \\""", """    def __len__(self):
+        return 2
+
+    def __str__(self):
+        return super(DisconnectedMode, self).__str__() + \\""", 'C11-R1'),
+    ('information-len-header', PDU, "        return 3 + len(self.data)", "        return 2 + len(self.data)", 'C11-R1'),
+    ('connect-len-sn-header', PDU, """                (3 if self.rw is not None and self.rw != 1 else 0) +
+                (2 + len(self.sn) if self.sn else 0))""", """                (3 if self.rw is not None and self.rw != 1 else 0) +
+                (1 + len(self.sn) if self.sn else 0))""", 'C11-R1'),
+    ('agf-len-without-length-fields', PDU, "        return 2 + sum([2+len(pdu) for pdu in self._aggregate])", "        return 2 + sum([len(pdu) for pdu in self._aggregate])", 'C11-R1'),
+    ('snl-len-sdres-size', PDU, "        return 2 + (len(self.sdres) * 4) \\", "        return 2 + (len(self.sdres) * 3) \\", 'C11-R1'),
+    ('dps-len-guard-differs', PDU, "                (2 + len(self.rn) if self.rn else 0))", "                (2 + len(self.rn) if self.rn is not None else 0))", 'C11-R1'),
+    # R2 omitted parameter defaults
+    ('connect-rw-guard-truthiness', PDU, [("""        if self.rw is not None and self.rw != 1:
+            data += Parameter.encode(Parameter.RW, self.rw)
+        if self.sn:""", """        if self.rw and self.rw != 1:
+            data += Parameter.encode(Parameter.RW, self.rw)
+        if self.sn:"""), ("""                (3 if self.rw is not None and self.rw != 1 else 0) +
+                (2 + len(self.sn) if self.sn else 0))""", """                (3 if self.rw and self.rw != 1 else 0) +
+                (2 + len(self.sn) if self.sn else 0))""")], None, 'C11-R2'),
+    ('connect-miux-threshold', PDU, [("""        if self.miu and self.miu > 128:
+            data += Parameter.encode(Parameter.MIUX, self.miu - 128)
+        if self.rw is not None and self.rw != 1:
+            data += Parameter.encode(Parameter.RW, self.rw)
+        if self.sn:""", """        if self.miu and self.miu > 129:
+            data += Parameter.encode(Parameter.MIUX, self.miu - 128)
+        if self.rw is not None and self.rw != 1:
+            data += Parameter.encode(Parameter.RW, self.rw)
+        if self.sn:"""), ("""                (4 if self.miu and self.miu > 128 else 0) +
+                (3 if self.rw is not None and self.rw != 1 else 0) +
+                (2 + len(self.sn) if self.sn else 0))""", """                (4 if self.miu and self.miu > 129 else 0) +
+                (3 if self.rw is not None and self.rw != 1 else 0) +
+                (2 + len(self.sn) if self.sn else 0))""")], None, 'C11-R2'),
+    # R3 window discipline
+    ('information-payload-to-buffer-end', PDU, "        payload = bytes(data[offset+3:offset+size])", "        payload = bytes(data[offset+3:])", 'C11-R3'),
+    ('ui-payload-to-buffer-end', PDU, "        payload = bytes(data[offset+2:offset+size])", "        payload = bytes(data[offset+2:])", 'C11-R3'),
+    ('dm-size-test-weaker', PDU, """        if size != 3:
+            raise DecodeError("DM PDU length error")""", """        if size < 2:
+            raise DecodeError("DM PDU length error")""", 'C11-R3'),
+    ('rr-header-without-size', PDU, [("""class ReceiveReady(NumberedProtocolDataUnit):""", """class ReceiveReady(NumberedProtocolDataUnit):  # mutated""")], None, 'C11-NONE'),
+    ('connect-window-not-preserved', PDU, """                log.warning("invalid TLV %r in CONNECT PDU", (T, L, V))
+            offset, size = offset + 2 + L, size - 2 - L""", """                log.warning("invalid TLV %r in CONNECT PDU", (T, L, V))
+            offset, size = offset + 2 + L, size - 1 - L""", 'C11-R3'),
+    ('header-size-constant', PDU, """class ProtocolDataUnit(object):
+    header_size = 2""", """class ProtocolDataUnit(object):
+    header_size = 1""", 'C11-R3'),
+    # R4 dispatch table
+    ('type-map-swapped', PDU, """    0b1101: ReceiveReady,
+    0b1110: ReceiveNotReady,""", """    0b1110: ReceiveReady,
+    0b1101: ReceiveNotReady,""", 'C11-R4'),
+    ('type-map-entry-missing', PDU, """    0b1010: DataProtectionSetup,
+""", "", 'C11-R4'),
+    ('information-ptype-literal', PDU, "        super(Information, self).__init__(0b1100, dsap, ssap, ns, nr)", "        super(Information, self).__init__(0b1011, dsap, ssap, ns, nr)", 'C11-R4'),
+    # R5 bit fields
+    ('header-dsap-shift', PDU, "        return struct.pack('!H', self.dsap << 10 | self.ptype << 6 | self.ssap)", "        return struct.pack('!H', self.dsap << 9 | self.ptype << 6 | self.ssap)", 'C11-R5'),
+    ('header-ssap-mask', PDU, "        return (dsap >> 2, ssap & 63)", "        return (dsap >> 2, ssap & 31)", 'C11-R5'),
+    ('sequence-nibbles-swapped', PDU, "        return (dsap >> 2, ssap & 63, sequence >> 4, sequence & 15)", "        return (dsap >> 2, ssap & 63, sequence & 15, sequence >> 4)", 'C11-R5'),
+    ('frmr-vs-vr-swapped', PDU, "            self.ns << 4 | self.nr, self.vs << 4 | self.vr,", "            self.ns << 4 | self.nr, self.vr << 4 | self.vs,", 'C11-R5'),
+    ('ssap-range-check', PDU, """        if self.dsap > 63 or self.ssap > 63:
+            raise EncodeError("pdu dsap and ssap field can not be > 63")""", """        if self.dsap > 63 or self.ssap > 127:
+            raise EncodeError("pdu dsap and ssap field can not be > 63")""", 'C11-R5'),
+    # R6 TLV codec
+    ('miux-encoded-little-endian', PDU, "                return struct.pack('>BBH', T, 2, V)", "                return struct.pack('<BBH', T, 2, V)", 'C11-R6'),
+    ('lto-decode-length', PDU, """            if L != 1:
+                raise DecodeError("LTO TLV length error")""", """            if L != 2:
+                raise DecodeError("LTO TLV length error")""", 'C11-R6'),
+    ('sdres-encode-length-byte', PDU, "                return struct.pack('>BBBB', T, 2, tid, sap)", "                return struct.pack('>BBBB', T, 3, tid, sap)", 'C11-R6'),
+    ('miux-mask', PDU, "                V = V & 0x07FF", "                V = V & 0x03FF", 'C11-R6'),
+]
+MUTANTS = [m for m in MUTANTS if m[4] != 'C11-NONE']
